@@ -32,6 +32,16 @@ func (i *documentIndex) Keys() []string {
 	return keys
 }
 
+// snapshot returns the view as it is at one moment: UpdateIndex publishes a
+// new map and never changes one it has published, so it can be read after
+// the lock has been released
+func (i *documentIndex) snapshot() map[string][]byte {
+	i.muIndex.RLock()
+	defer i.muIndex.RUnlock()
+
+	return i.index
+}
+
 func (i *documentIndex) Get(key string) interface{} {
 	i.muIndex.RLock()
 	defer i.muIndex.RUnlock()
